@@ -110,7 +110,7 @@ def run(tier):
         rep.sample({"schedule_exploration": v, "preemption_bound": bound, "executions": r["executions"], "distinct_outcomes": len(r["outcomes"]),
                     "branching_points": r["max_points"]}, 12)
     rep.cov["schedules"] = sched_execs
-    depth = 6 if tier == "thorough" else 4
+    depth = 6 if tier == "thorough" else 5
     ms = models(tier)
     tot = monitors.run_models(rep, [m for m in ms if m.name != "inbound-traffic-vs-timeout"], depth, dedup_depth_plain=depth - 2,
                               time_cap=900 if tier == "thorough" else 100)
